@@ -89,6 +89,26 @@ fn build_with<CC: ChunkCreator>(cfg: &SortCfg, mf: LoggingConcat, cc: CC) -> Sor
     b.chunk_creator(cc).build()
 }
 
+/// A chunk storage that publishes what was written only when it is flushed (a buffered file, a transactional
+/// store): reads and seeks see the flushed bytes only.
+pub struct StagedChunk { committed: Cursor<Vec<u8>>, pending: Vec<u8> }
+impl io::Write for StagedChunk {
+    fn write(&mut self, b: &[u8]) -> io::Result<usize> { self.pending.extend_from_slice(b); Ok(b.len()) }
+    fn flush(&mut self) -> io::Result<()> { let p = std::mem::take(&mut self.pending); self.committed.get_mut().extend_from_slice(&p); Ok(()) }
+}
+impl io::Read for StagedChunk {
+    fn read(&mut self, b: &mut [u8]) -> io::Result<usize> { io::Read::read(&mut self.committed, b) }
+}
+impl io::Seek for StagedChunk {
+    fn seek(&mut self, p: io::SeekFrom) -> io::Result<u64> { io::Seek::seek(&mut self.committed, p) }
+}
+pub struct StagedCreator;
+impl ChunkCreator for StagedCreator {
+    type Chunk = StagedChunk;
+    type Error = io::Error;
+    fn create(&self) -> Result<StagedChunk, io::Error> { Ok(StagedChunk { committed: Cursor::new(Vec::new()), pending: Vec::new() }) }
+}
+
 /// run 2 of a sorter case: inserts, write_into_stream_writer, full scan of the written file
 fn run_into_writer<CC: ChunkCreator>(cfg: &SortCfg, ins: &[(Vec<u8>, Vec<u8>)], cc: CC) -> Result<Vec<(Vec<u8>, Vec<u8>)>, String> {
     let mf2 = LoggingConcat { calls: RefCell::new(Vec::new()), fail_at: None, sort: !cfg.stable };
@@ -420,12 +440,13 @@ fn emit_sorter_case_cr<W: Write>(c: &mut Cases<W>, which: &str, cfg: &SortCfg, i
         // run 2: into a writer
         // (the chunk storage alternates: the counting in-memory one, the crate's CursorVec, its TempFileChunk)
         let ctr2 = Rc::new(Counters::default());
-        let r2 = catch(|| match c.count % 3 {
+        let r2 = catch(|| match c.count % 4 {
             0 => run_into_writer(&cfg, ins, CountingCreator { ctr: ctr2.clone() }),
             1 => run_into_writer(&cfg, ins, grenad::CursorVec),
-            _ => run_into_writer(&cfg, ins, grenad::TempFileChunk),
+            2 => run_into_writer(&cfg, ins, grenad::TempFileChunk),
+            _ => run_into_writer(&cfg, ins, StagedCreator),
         });
-        c.bump(["storage.counting", "storage.cursor_vec", "storage.temp_file"][(c.count % 3) as usize], 1);
+        c.bump(["storage.counting", "storage.cursor_vec", "storage.temp_file", "storage.published_on_flush"][(c.count % 4) as usize], 1);
         match r2 {
             Ok(Ok(out)) => c.line(&format!("out2 {}", scan_hash(&out))),
             Ok(Err(e)) => c.line(&format!("out2 err {}", e)),
